@@ -67,6 +67,7 @@ type c17HCase struct {
 	Kind    string `json:"kind"`
 	Cap     int    `json:"cap"`
 	NewCap  int    `json:"newCap,omitempty"`
+	Seq     []int  `json:"seq,omitempty"` // b2b-reload-mix: maxConnections of the reloads, in order
 	Clients int    `json:"clients"`
 }
 
@@ -319,6 +320,54 @@ func c17FreePort(rng *rand.Rand) int {
 	return 0
 }
 
+// c17HSeq draws the caps of 3-6 back-to-back reloads: each a shrink, an identical repeat, a grow
+// or a return to a value used earlier (1..12).  With mustRepeat the draw is repeated until the
+// sequence contains a shrink followed (not necessarily at once) by an identical repeat and a grow
+// right after it.
+func c17HSeq(rng *rand.Rand, cap0 int, mustRepeat bool) []int {
+	for {
+		n := 3 + rng.Intn(4)
+		cur := cap0
+		seen := []int{cap0}
+		var out []int
+		shrunk, same, ok := false, false, false
+		for k := 0; k < n; k++ {
+			c := cur
+			switch x := rng.Intn(10); {
+			case x < 4:
+				if cur > 1 {
+					c = 1 + rng.Intn(cur-1)
+				}
+			case x < 7:
+			case x < 9:
+				c = cur + 1 + rng.Intn(4)
+			default:
+				c = seen[rng.Intn(len(seen))]
+			}
+			if c > 12 {
+				c = 12
+			}
+			switch {
+			case c < cur:
+				shrunk, same = true, false
+			case c == cur:
+				same = shrunk
+			default:
+				if same {
+					ok = true
+				}
+				same = false
+			}
+			out = append(out, c)
+			seen = append(seen, c)
+			cur = c
+		}
+		if ok || !mustRepeat {
+			return out
+		}
+	}
+}
+
 func c17HRun(r *kit.Run, cs *c17HCase, rng *rand.Rand) {
 	m := &c17HMon{r: r, cs: cs, bound: cs.Cap, ctx: "steady:initial"}
 	var rt *runtime
@@ -465,6 +514,65 @@ func c17HRun(r *kit.Run, cs *c17HCase, rng *rand.Rand) {
 			<-c.done
 		}
 		time.Sleep(50 * time.Millisecond)
+	case "b2b-reload-mix":
+		// 3-6 reloads back to back while every served connection is held: shrinks below the
+		// usage, reloads that keep maxConnections (what every reload of an HTTPServer whose
+		// other fields changed does), grows, returns to earlier values.  Bound: the maximum of
+		// all caps involved, raised before the first reload and never lowered.  A shrink issued
+		// while at least as many connections are served as the cap before it cannot be applied
+		// before a connection closes, and none closes until the last reload has been handled.
+		maxc := cs.Cap
+		for _, c := range cs.Seq {
+			if c > maxc {
+				maxc = c
+			}
+		}
+		m.setCtx("b2b-reloads:before-any-shrink", maxc)
+		cur, shrinkUnapplied, sameOverS, prevSameOverS := cs.Cap, false, false, false
+		for _, c := range cs.Seq {
+			wasSame := false
+			switch {
+			case c < cur:
+				if !shrinkUnapplied {
+					// an applied grow may still be filling up: saturate first (clients > every cap)
+					at := cur
+					if !m.waitUntil("the listener to be full again before a shrinking reload", func() bool { return m.open() >= at }) {
+						return
+					}
+					shrinkUnapplied = true
+					m.setCtx("b2b-reloads:shrink-unapplied", 0)
+					r.Count("http_shrink_reload_at_saturation", 1)
+				}
+			case c == cur:
+				if shrinkUnapplied {
+					sameOverS, wasSame = true, true
+					r.Count("http_identical_reload_over_unapplied_shrink", 1)
+				}
+			default:
+				if shrinkUnapplied && sameOverS {
+					m.setCtx("overlap:grow-issued-after-identical-repeat-over-unapplied-shrink", 0)
+					if prevSameOverS {
+						r.Count("http_grow_reload_right_after_identical_over_unapplied_shrink", 1)
+					}
+				} else if shrinkUnapplied {
+					m.setCtx("overlap:grow-issued-over-unapplied-shrink", 0)
+				}
+			}
+			prevSameOverS = wasSame
+			reload(c)
+			cur = c
+		}
+		if !m.waitUntil("the reload events to be taken by the runtime", func() bool { return len(rt.eventChan) == 0 }) {
+			return
+		}
+		time.Sleep(100 * time.Millisecond) // lower bound only: an over-admission shows here
+		for _, c := range wave[:len(wave)/2] {
+			c.free()
+		}
+		for _, c := range wave[:len(wave)/2] {
+			<-c.done
+		}
+		time.Sleep(50 * time.Millisecond)
 	case "shrink":
 		// the oracle's bound stays at the old cap (sound); the new cap is then observed
 		m.setCtx("after-shrink-reload-unconfirmed", cs.Cap)
@@ -498,10 +606,10 @@ func c17HRun(r *kit.Run, cs *c17HCase, rng *rand.Rand) {
 func TestVerif_C17_HTTPRuntime(t *testing.T) {
 	r := kit.Start(t, "C17")
 	defer r.Finish()
-	r.Rule("a real httpserver runtime (fsm + http.Server + gnet.Listen + LimitListener) per case on a loopback port with maxConnections = cap in 2..6 and cap+4..cap+8 raw keep-alive HTTP clients that hold their connection; kinds: steady + reuse of released capacity | grow through a reload event | shrink through a reload event (observed in force on fresh waves) | shrink-then-grow in two back-to-back reloads at saturation | repeated identical reloads; oracle: clients that got a response and have not closed <= cap in force at every response; a held connection still answers a second request before it is closed; distinct = (kind, cap, new cap, max served)")
+	r.Rule("a real httpserver runtime (fsm + http.Server + gnet.Listen + LimitListener) per case on a loopback port with maxConnections = cap in 2..6 and cap+4..cap+8 raw keep-alive HTTP clients that hold their connection; kinds: steady + reuse of released capacity | grow through a reload event | shrink through a reload event (observed in force on fresh waves) | shrink-then-grow in two back-to-back reloads at saturation | repeated identical reloads | 3-6 back-to-back reloads at saturation mixing shrinks below the usage, reloads that keep maxConnections (also over a shrink that cannot have been applied), grows and returns to earlier values, nothing closing in between (bound = max of all caps involved); oracle: clients that got a response and have not closed <= cap in force at every response; a held connection still answers a second request before it is closed; distinct = (kind, cap, new cap, max served)")
 	r.Assume("the completion of a shrinking reload is not observable through the runtime, so after it the bound of the oracle stays at the old cap and the new cap is only observed (progress)")
-	kinds := []string{"steady-reuse", "grow", "shrink", "shrink-then-grow-b2b", "repeated-identical"}
-	n := r.N(40, 1000)
+	kinds := []string{"steady-reuse", "grow", "shrink", "shrink-then-grow-b2b", "repeated-identical", "b2b-reload-mix"}
+	n := r.N(48, 1200)
 	for i := 0; i < n; i++ {
 		if !r.Mine(i) {
 			continue
@@ -514,6 +622,16 @@ func TestVerif_C17_HTTPRuntime(t *testing.T) {
 			cs.NewCap = cs.Cap + 1 + rng.Intn(4)
 		case "shrink", "shrink-then-grow-b2b":
 			cs.NewCap = 1 + rng.Intn(cs.Cap-1)
+		case "b2b-reload-mix":
+			// every other case of this kind must contain 'shrink ... identical repeat, grow'
+			cs.Seq = c17HSeq(rng, cs.Cap, (i/len(kinds))%2 == 0)
+			maxc := cs.Cap
+			for _, c := range cs.Seq {
+				if c > maxc {
+					maxc = c
+				}
+			}
+			cs.Clients = maxc + 3 + rng.Intn(4)
 		}
 		r.Case(i, cs)
 		if i < 2 {
@@ -521,7 +639,8 @@ func TestVerif_C17_HTTPRuntime(t *testing.T) {
 		}
 		c17HRun(r, cs, rng)
 	}
-	for _, k := range []string{"served_reaching_cap", "held_back_clients_seen_at_cap", "released_capacity_reused", "grow_through_reload_observed", "shrink_through_reload_observed_in_force", "second_request_on_held_connection_ok", "reloads"} {
+	for _, k := range []string{"served_reaching_cap", "held_back_clients_seen_at_cap", "released_capacity_reused", "grow_through_reload_observed", "shrink_through_reload_observed_in_force", "second_request_on_held_connection_ok", "reloads",
+		"http_shrink_reload_at_saturation", "http_identical_reload_over_unapplied_shrink", "http_grow_reload_right_after_identical_over_unapplied_shrink"} {
 		r.Require(k, 1)
 	}
 }
